@@ -136,6 +136,9 @@ def get_attr_path(cfg, parts):
     return o
 
 
+RECON_UNION = set()
+
+
 def judge_table(ctx, tab, cfg, path, label, rng):
     """Write, read back, compare; returns nothing. cfg may be None (no reconstruction)."""
     from astropy.io import fits
@@ -288,6 +291,10 @@ def judge_table(ctx, tab, cfg, path, label, rng):
                 yield pre + (k_,)
 
     paths = sorted(leaves(captured))
+    # a reader that drops a field for *this* file (e.g. because its value is falsy) still
+    # "reconstructs" that field in general: compare on the union seen over all files so far
+    RECON_UNION.update(paths)
+    paths = sorted(RECON_UNION)
     ctx.count("reconstruct", len(paths))
     ctx.obs.setdefault("fields_reconstructed", [".".join(p_) for p_ in paths])
     if not paths:
@@ -325,6 +332,17 @@ def run(ctx):
         # ---- synthetic tables on results_table.init(config)
         n = ctx.pick(120, 2000)
         prev_cfg = None
+        RECON_UNION.clear()
+        for warm in range(2):  # all-truthy configurations of both spectrum types populate the union
+            from nuspacesim.config import Simulation as _S
+
+            cw = NssConfig()
+            cw.detector.name, cw.title = "warm", "up"
+            if warm:
+                cw.simulation.spectrum = _S.PowerSpectrum(index=2.5, lower_bound=7.0, upper_bound=11.0)
+            tw = results_table.init(cw)
+            tw["beta_rad"] = np.arange(2.0)
+            judge_table(ctx, tw, cw, os.path.join(work, "t.fits"), f"all-default configuration ({cw.simulation.spectrum.id})", rng)
         for i in range(n):
             longf = i % 3 == 2
             try:
